@@ -467,8 +467,11 @@ def _execute(sc, store):
                 continue
             bump("links")
             bump("loader_" + st["loader"])
-            ld = CountingLoader(make_loader(st["loader"]))
-            lk = LinearIR.Linker(loader=ld)
+            default_loader = st["loader"] == "default" and not any(m.get("suffix") for m in mods)
+            ld = CountingLoader(make_loader("fs" if st["loader"] == "default" else st["loader"]))
+            # "default": Linker() as nslr.py and most hosts create it - its own (shared
+            # default-argument) FilesystemModuleLoader; loads cannot be counted there
+            lk = LinearIR.Linker() if default_loader else LinearIR.Linker(loader=ld)
             prog = None
             exc = None
             try:
@@ -499,6 +502,9 @@ def _execute(sc, store):
                     f"(import depth {depth})",
                     finding_key=_exc_key(exc),
                 )
+            if default_loader:
+                bump("links_with_default_loader")
+                loads = [gen16.import_name(sc, m) for m in sorted(need)]  # not observable: assumed
             bump("imports_loaded", len(loads))
             if len(loads) >= 3:
                 bump("probe_three_or_more_imports_loaded")
@@ -608,7 +614,8 @@ def _dup_step(sc, st, LinearIR, make_loader, host_module, guarded_link, Counting
         v = funcs[st["victim"] % len(funcs)]
         params = ", ".join(f"{t} {n}" for n, t in v["params"])
         body = "777" if v["ret"] == "int" else "777.5"
-        dsrc = f"export function {v['name']}({params}) -> {v['ret']} {{\n  return {body};\n}}\n"
+        exp = "export " if v.get("export", True) else ""  # a non-exported function is known by its mangled name
+        dsrc = f"{exp}function {v['name']}({params}) -> {v['ret']} {{\n  return {body};\n}}\n"
         what = f"function {v['name']}"
     else:
         if not sc["globals"]:
